@@ -131,6 +131,8 @@ theorem runBody_rate (w : TW) (st : Stage) (h : w.stages = [st]) (hr : st.isRate
   | tick => left; rfl
   | bufTick j => left; rfl
   | tickN j => left; rfl
+  | futureSrc => simp [Body.benign] at hb
+  | streamSrc => simp [Body.benign] at hb
 
 theorem runTick_rate (w : TW) (st : Stage) (h : w.stages = [st]) (hr : st.isRate = true)
     (b : Body) (hb : b.benign = true) (seq : Nat) :
